@@ -364,8 +364,9 @@ class ParameterFormatter(FileIOMixin, object):
                 if round_value_to_error:
                     val_formatter = ScalarFormatter(_min_err, n_significant_digits=n_significant_digits)
                     _val = val_formatter(value)
-                    _err = "%#.{n}g".format(n=n_significant_digits) % self.error
-                    if asymmetric_error:  # needed for different powers of 10 in asymmetric errs
+                    if not asymmetric_error:
+                        _err = "%#.{n}g".format(n=n_significant_digits) % self.error
+                    else:  # needed for different powers of 10 in asymmetric errs
                         if abs(self.error_down) <= abs(self.error_up):
                             _err_u = val_formatter(abs(self.error_up))
                             _err_d = "%#.{n}g".format(n=n_significant_digits) % abs(self.error_down)
@@ -375,8 +376,9 @@ class ParameterFormatter(FileIOMixin, object):
                 # default cases if no rounding
                 else:
                     _val = f"%.{n_significant_digits}g" % value
-                    _err = f"%.{n_significant_digits}g" % self.error
-                    if asymmetric_error:
+                    if not asymmetric_error:
+                        _err = f"%.{n_significant_digits}g" % self.error
+                    else:
                         _err_u = f"%.{n_significant_digits}g" % self.error_up
                         _err_d = f"%.{n_significant_digits}g" % self.error_down
 
